@@ -125,6 +125,34 @@ func (g *c05gen) probe(line int, expr, kind, name string, defined bool) {
 	g.probes = append(g.probes, c05Probe{line, expr, kind, defined, strings.ToLower(name)})
 }
 
+// embed wraps a reference into a larger expression; the verdict about the reference must not
+// depend on where inside the expression it occurs.
+func (g *c05gen) embed(ref string) string {
+	switch g.i("embed", 0, 13) {
+	case 0:
+		return ref + " == 'x'"
+	case 1:
+		return "format('{0}', " + ref + ")"
+	case 2:
+		return ref + " && 'x' || 'y'"
+	case 3:
+		return "(" + ref + " || 'x') && 'y'"
+	case 4:
+		return "!(" + ref + " && true) && 'y'"
+	case 5:
+		return "true && (false || " + ref + ")"
+	case 6:
+		return "fromJSON('[1]')[" + ref + "]"
+	case 7:
+		return "!" + ref
+	case 8:
+		return "toJSON(" + ref + ") != ''"
+	case 9:
+		return "'y' == " + ref + " || contains('abc', " + ref + ")"
+	}
+	return ref
+}
+
 type c05job struct {
 	id      string
 	needs   []int
@@ -311,7 +339,7 @@ func genC05Shape(rt *rapid.T, extra func(g *c05gen)) (*c05Case, int, int) {
 					kind, name = "jobs/undeclared-output", "nosuch"
 				}
 			}
-			ln := y.ln("        value: ${{ %s }}", expr)
+			ln := y.ln("        value: ${{ %s }}", g.embed(expr))
 			g.probe(ln, expr, kind, name, defined)
 		}
 	}
@@ -344,7 +372,7 @@ func genC05Shape(rt *rapid.T, extra func(g *c05gen)) (*c05Case, int, int) {
 				if expr == "" {
 					continue
 				}
-				ln := y.ln("%s%s%d: ${{ %s }}", indent, keyPrefix, k, expr)
+				ln := y.ln("%s%s%d: ${{ %s }}", indent, keyPrefix, k, g.embed(expr))
 				g.probe(ln, expr, kind, name, defined)
 			}
 		}
@@ -370,7 +398,7 @@ func genC05Shape(rt *rapid.T, extra func(g *c05gen)) (*c05Case, int, int) {
 			y.ln("    outputs:")
 			for _, o := range j.outputs {
 				expr, kind, name, defined := g.stepsProbe(allIDs, nil, "", "job-outputs")
-				ln := y.ln("      %s: ${{ %s }}", g.spell(o), expr)
+				ln := y.ln("      %s: ${{ %s }}", g.spell(o), g.embed(expr))
 				g.probe(ln, expr, kind, name, defined)
 			}
 		}
@@ -378,7 +406,7 @@ func genC05Shape(rt *rapid.T, extra func(g *c05gen)) (*c05Case, int, int) {
 			y.ln("    environment:")
 			y.ln("      name: prod")
 			expr, kind, name, defined := g.stepsProbe(allIDs, nil, "", "environment-url")
-			ln := y.ln("      url: https://example.com/${{ %s }}", expr)
+			ln := y.ln("      url: https://example.com/${{ %s }}", g.embed(expr))
 			g.probe(ln, expr, kind, name, defined)
 		}
 		y.ln("    steps:")
@@ -421,25 +449,25 @@ func genC05Shape(rt *rapid.T, extra func(g *c05gen)) (*c05Case, int, int) {
 			}
 			switch pos {
 			case "run":
-				ln := item("run: echo ${{ %s }}", expr)
+				ln := item("run: echo ${{ %s }}", g.embed(expr))
 				g.probe(ln, expr, kind, name, defined)
 			case "env":
 				item("run: echo")
 				item("env:")
-				ln := item("  V: ${{ %s }}", expr)
+				ln := item("  V: ${{ %s }}", g.embed(expr))
 				g.probe(ln, expr, kind, name, defined)
 			case "if":
 				item("run: echo")
-				ln := item("if: ${{ %s }}", expr)
+				ln := item("if: ${{ %s }}", g.embed(expr))
 				g.probe(ln, expr, kind, name, defined)
 			case "name":
 				item("run: echo")
-				ln := item("name: n ${{ %s }}", expr)
+				ln := item("name: n ${{ %s }}", g.embed(expr))
 				g.probe(ln, expr, kind, name, defined)
 			default:
 				item("uses: owner/unknown-action@v1")
 				item("with:")
-				ln := item("  arg: ${{ %s }}", expr)
+				ln := item("  arg: ${{ %s }}", g.embed(expr))
 				g.probe(ln, expr, kind, name, defined)
 			}
 		}
